@@ -1,5 +1,8 @@
+mod c16;
+
 fn main() {
     let mut checks = vcore::lean_checks();
+    checks.push(vcore::CheckDef { name: "c16", run: c16::run, replay: c16::replay });
     checks.push(vcore::CheckDef { name: "c17", run: vwincon::c17::run, replay: vwincon::c17::replay });
     checks.push(vcore::CheckDef { name: "c18", run: vwincon::c18::run, replay: vwincon::c18::replay });
     std::process::exit(vcore::cli_main(checks));
